@@ -1116,9 +1116,11 @@ UnionArray8_U32 = _mk_union("UnionArray8_U32", IndexU32)
 UnionArray8_64 = _mk_union("UnionArray8_64", Index64)
 
 
-# placeholders replaced by akshim.builders / akshim.virtual when those modules are imported
-class ArrayBuilder(object):
-    pass
+# ArrayBuilder / LayoutBuilder live in akshim.builder (which imports this module lazily, so either import order works)
+from akshim.builder import ArrayBuilder, LayoutBuilder  # noqa: E402,F401
+
+
+# placeholder replaced by akshim.virtual when that module is imported
 
 
 @_register
